@@ -6,8 +6,9 @@
 (* behaviours generated from the system specification together with the     *)
 (* message each input stands for.  bin/cli_stage.py drives the binary built  *)
 (* from /repo's working tree (start, --help of every command, `tx ...        *)
-(* --generate-only' for every input, and on a single-node chain the query    *)
-(* commands) and records what it observed; this module is evaluated by TLC   *)
+(* --generate-only' for every input, every query command against a recording *)
+(* RPC endpoint -- the request it sends --, and on a single-node chain the   *)
+(* query commands) and records what it observed; this module is evaluated by TLC   *)
 (* on that record (FR_TRACE) and prints <<"FAIL", ...>> lines.               *)
 (***************************************************************************)
 EXTENDS Integers, Sequences, FiniteSets, TLC, Json, IOUtils
@@ -38,6 +39,38 @@ Fields(m) ==
     [] m.a = "Bid" -> [msg |-> "MsgPlaceBid", by |-> m.by, id |-> m.id, type |-> m.type, price |-> m.price, denom |-> m.denom, amt |-> m.amt]
     [] m.a = "Modify" -> [msg |-> "MsgModifyBid", by |-> m.by, id |-> m.id, bid |-> m.bid, price |-> m.price, denom |-> m.denom, amt |-> m.amt]
 
+(* query command -> RPC method, request field fed by each positional argument and by each flag.  Field numbers are   *)
+(* those of the published query.proto (the wire contract); "n" = numeric (0 is not sent), "s" = string ("" not sent). *)
+(* P(k) are the pagination flags of a listing whose request carries PageRequest in field k.                            *)
+QSvc == "/fundraising.fundraising.v1.Query/"
+F(k, t) == [f |-> k, t |-> t]
+P(k) == ("page-offset" :> F(k \o ".2", "n")) @@ ("page-limit" :> F(k \o ".3", "n"))
+NoFlags == [x \in {} |-> F("0", "n")]
+QueryTable ==
+     ("params"              :> [path |-> QSvc \o "Params", pos |-> <<>>, flags |-> NoFlags])
+  @@ ("list-auction"        :> [path |-> QSvc \o "ListAuction", pos |-> <<>>,
+                                flags |-> ("status" :> F("1", "s")) @@ ("type" :> F("2", "s")) @@ P("3")])
+  @@ ("get-auction"         :> [path |-> QSvc \o "GetAuction", pos |-> <<F("1", "n")>>, flags |-> NoFlags])
+  @@ ("list-allowed-bidder" :> [path |-> QSvc \o "ListAllowedBidder", pos |-> <<>>, flags |-> ("auction-id" :> F("1", "n")) @@ P("2")])
+  @@ ("get-allowed-bidder"  :> [path |-> QSvc \o "GetAllowedBidder", pos |-> <<F("1", "n"), F("2", "s")>>, flags |-> NoFlags])
+  @@ ("list-bid"            :> [path |-> QSvc \o "ListBid", pos |-> <<>>,
+                                flags |-> ("auction-id" :> F("1", "n")) @@ ("bidder" :> F("2", "s")) @@ ("is-matched" :> F("3", "s")) @@ P("4")])
+  @@ ("get-bid"             :> [path |-> QSvc \o "GetBid", pos |-> <<F("1", "n"), F("2", "n")>>, flags |-> NoFlags])
+  @@ ("list-vesting-queue"  :> [path |-> QSvc \o "ListVestingQueue", pos |-> <<>>, flags |-> ("auction-id" :> F("1", "n")) @@ P("2")])
+
+Sent(fd, v) == IF (fd.t = "n" /\ v = "0") \/ v = "" THEN {} ELSE {<<fd.f, v>>}
+QSentOK(i) ==
+  LET r == Rec[i] IN
+  /\ r.exit = 0
+  /\ r.cmd \in DOMAIN QueryTable
+  /\ LET t == QueryTable[r.cmd] IN
+     /\ r.path = t.path
+     /\ Len(r.pos) = Len(t.pos)
+     /\ \A j \in 1..Len(r.flags) : r.flags[j].n \in DOMAIN t.flags
+     /\ {<<r.req[j].k, r.req[j].v>> : j \in 1..Len(r.req)}
+          = UNION ({Sent(t.pos[j], r.pos[j]) : j \in 1..Len(r.pos)}
+                   \cup {Sent(t.flags[r.flags[j].n], r.flags[j].v) : j \in 1..Len(r.flags)})
+
 Recs(kind) == {i \in 1..Len(Rec) : Rec[i].kind = kind}
 
 StartOK == \E i \in Recs("start") : Rec[i].exit = 0
@@ -53,6 +86,7 @@ CNext ==
   /\ LET r == Rec[l + 1] IN
      /\ ((r.kind = "sent" /\ ~SentOK(l + 1)) => PrintT(<<"FAIL", "cli", l + 1, {"C20.sent"}>>))
      /\ ((r.kind = "query" /\ ~QueryOK(l + 1)) => PrintT(<<"FAIL", "cli", l + 1, {"C20.query"}>>))
+     /\ ((r.kind = "qsent" /\ ~QSentOK(l + 1)) => PrintT(<<"FAIL", "cli", l + 1, {"C20.sent"}>>))
      /\ ((r.kind \in {"start", "node", "tx"} /\ r.exit # 0) => PrintT(<<"FAIL", "cli", l + 1, {"C20.start"}>>))
      /\ ((r.kind = "help" /\ (r.exit # 0 \/ ~r.mentions)) => PrintT(<<"FAIL", "cli", l + 1, {"C20.help"}>>))
   /\ (l + 1 = Len(Rec) =>
